@@ -16,48 +16,49 @@
 (***************************************************************************)
 EXTENDS Private, Json
 
-VARIABLES l, amb,
+VARIABLES l,
           pend     \* sources admitted before the last stop / refusal and not yet seen dialled: their connections may still be in flight
-tvars == <<vars, l, amb, pend>>
+tvars == <<vars, l, pend>>
 
 Trace == ndJsonDeserialize("trace.ndjson")
 Ev == Trace[l]
 SetOf(q) == {q[i] : i \in 1 .. Len(q)}
 Note(v) == IF v = "" THEN TRUE ELSE PrintT("@@VIOL " \o v \o " " \o ToString(l))
 
-CfgOf(e) == [priv |-> e.priv, dht |-> e.dht, pex |-> e.pex, sibling |-> e.sibling, mode |-> e.mode]
+\* the private flag of the scenario comes from the ENCODING the harness put into the info dict, read by Private!IsPrivateEncoding
+CfgOf(e) == [priv |-> IsPrivateEncoding(e.encv), dht |-> e.dht, pex |-> e.pex, sibling |-> e.sibling, mode |-> e.mode]
 
-TraceInit == l = 2 /\ Trace[1].ev = "init" /\ InitWith(CfgOf(Trace[1])) /\ amb = Trace[1].amb /\ pend = {} /\ TLCSet(1, 1)
+TraceInit == l = 2 /\ Trace[1].ev = "init" /\ InitWith(CfgOf(Trace[1])) /\ pend = {} /\ TLCSet(1, 1)
 
 TrReset ==
     /\ Ev.ev = "init"
-    /\ cfg' = CfgOf(Ev) /\ amb' = Ev.amb /\ pend' = {}
+    /\ cfg' = CfgOf(Ev) /\ pend' = {}
     /\ info' = (IF Ev.mode = "file" THEN "known" ELSE "none")
     /\ running' = FALSE /\ conn' = {} /\ pexOn' = {} /\ queue' = {} /\ dialled' = {}
     /\ dhtAnn' = FALSE /\ dhtPending' = FALSE /\ asked' = FALSE /\ sibAsked' = FALSE /\ nodes' = FALSE
     /\ magnetRes' = "none" /\ leak' = {} /\ hist' = 0
     /\ l' = l + 1
 
-Keep == UNCHANGED <<hist, amb, pend>> /\ l' = l + 1
-Skip == UNCHANGED vars /\ UNCHANGED <<amb, pend>> /\ l' = l + 1
+Keep == UNCHANGED <<hist, pend>> /\ l' = l + 1
+Skip == UNCHANGED vars /\ UNCHANGED pend /\ l' = l + 1
 
 \* which restriction is in force: names the violated half of the property
 Why == IF IsPriv THEN "private" ELSE IF info = "refused" THEN "refused" ELSE ""
 
 \* ---- stimuli ---------------------------------------------------------------
-TrStart == Ev.ev = "start" /\ (IF running THEN UNCHANGED vars ELSE DoStart /\ UNCHANGED hist) /\ pend' = {} /\ UNCHANGED amb /\ l' = l + 1
-TrStop  == Ev.ev = "stop" /\ (IF running THEN DoStop /\ UNCHANGED hist ELSE UNCHANGED vars) /\ pend' = pend \cup queue /\ UNCHANGED amb /\ l' = l + 1
+TrStart == Ev.ev = "start" /\ (IF running THEN UNCHANGED vars ELSE DoStart /\ UNCHANGED hist) /\ pend' = {} /\ l' = l + 1
+TrStop  == Ev.ev = "stop" /\ (IF running THEN DoStop /\ UNCHANGED hist ELSE UNCHANGED vars) /\ pend' = pend \cup queue /\ l' = l + 1
 TrTrackerReply == Ev.ev = "trkreply" /\ DoTrackerPeers /\ Keep
 TrAddPeer == Ev.ev = "addpeer" /\ DoAddPeer /\ Keep
-TrConnIn == Ev.ev = "conn_in" /\ (IF running THEN DoIncoming /\ UNCHANGED hist ELSE UNCHANGED vars) /\ UNCHANGED <<amb, pend>> /\ l' = l + 1
-TrExtHs == Ev.ev = "exths" /\ (IF Ev.p \in conn THEN DoExtHs(Ev.p) /\ UNCHANGED hist ELSE UNCHANGED vars) /\ UNCHANGED <<amb, pend>> /\ l' = l + 1
-TrPexMsg == Ev.ev = "pexmsg" /\ (IF Ev.p \in conn THEN DoPexMsg(Ev.p) /\ UNCHANGED hist ELSE UNCHANGED vars) /\ UNCHANGED <<amb, pend>> /\ l' = l + 1
-TrPortMsg == Ev.ev = "port" /\ (IF Ev.p \in conn THEN DoPortMsg(Ev.p) /\ UNCHANGED hist ELSE UNCHANGED vars) /\ UNCHANGED <<amb, pend>> /\ l' = l + 1
-TrSibling == Ev.ev = "sibling" /\ (IF cfg.sibling /\ cfg.dht THEN DoSiblingAsk /\ UNCHANGED hist ELSE UNCHANGED vars) /\ UNCHANGED <<amb, pend>> /\ l' = l + 1
+TrConnIn == Ev.ev = "conn_in" /\ (IF running THEN DoIncoming /\ UNCHANGED hist ELSE UNCHANGED vars) /\ UNCHANGED pend /\ l' = l + 1
+TrExtHs == Ev.ev = "exths" /\ (IF Ev.p \in conn THEN DoExtHs(Ev.p) /\ UNCHANGED hist ELSE UNCHANGED vars) /\ UNCHANGED pend /\ l' = l + 1
+TrPexMsg == Ev.ev = "pexmsg" /\ (IF Ev.p \in conn THEN DoPexMsg(Ev.p) /\ UNCHANGED hist ELSE UNCHANGED vars) /\ UNCHANGED pend /\ l' = l + 1
+TrPortMsg == Ev.ev = "port" /\ (IF Ev.p \in conn THEN DoPortMsg(Ev.p) /\ UNCHANGED hist ELSE UNCHANGED vars) /\ UNCHANGED pend /\ l' = l + 1
+TrSibling == Ev.ev = "sibling" /\ (IF cfg.sibling /\ cfg.dht THEN DoSiblingAsk /\ UNCHANGED hist ELSE UNCHANGED vars) /\ UNCHANGED pend /\ l' = l + 1
 TrDhtValues ==       \* the DHT stub answered a get_peers for the info-hash with a peer address
     /\ Ev.ev = "dhtvalues"
     /\ IF asked \/ sibAsked THEN DoDhtPeers /\ UNCHANGED hist ELSE UNCHANGED vars
-    /\ UNCHANGED <<amb, pend>> /\ l' = l + 1
+    /\ UNCHANGED pend /\ l' = l + 1
 
 \* ---- observations ------------------------------------------------------------
 \* @obligation C19.pex.acted / C19.dht.fed / C19.metadata.leak.dial
@@ -75,7 +76,7 @@ TrDial ==
                          ELSE "NOTE.dial.unexplained." \o Ev.src)
                  /\ dialled' = dialled \cup {Ev.src} /\ conn' = conn \cup {Ev.src}
                  /\ UNCHANGED <<cfg, info, running, pexOn, queue, dhtAnn, dhtPending, asked, sibAsked, nodes, magnetRes, leak, hist>>
-    /\ UNCHANGED <<amb, pend>> /\ l' = l + 1
+    /\ UNCHANGED pend /\ l' = l + 1
 
 \* @obligation C19.pex.sent   the client sent a ut_pex message to peer Ev.p
 TrPexRx ==
@@ -100,7 +101,7 @@ TrDhtQ ==
                        ELSE "NOTE.dht.unexplained")
                /\ asked' = TRUE
                /\ UNCHANGED <<cfg, info, running, conn, pexOn, queue, dialled, dhtAnn, dhtPending, sibAsked, nodes, magnetRes, leak, hist>>
-    /\ UNCHANGED <<amb, pend>> /\ l' = l + 1
+    /\ UNCHANGED pend /\ l' = l + 1
 
 \* @obligation C19.metadata   private metadata from a magnet link is refused (and public metadata is adopted)
 TrMeta ==
@@ -114,7 +115,7 @@ TrMeta ==
        THEN DoMetadata(Ev.outcome = "adopted") /\ UNCHANGED hist
        ELSE UNCHANGED vars
     /\ pend' = IF Ev.outcome = "refused" THEN pend \cup queue ELSE pend
-    /\ UNCHANGED amb /\ l' = l + 1
+    /\ l' = l + 1
 
 \* @obligation C19.magnet
 TrMagnet ==
@@ -132,11 +133,11 @@ TrIdent ==
             ELSE "")
     /\ Skip
 
-\* @obligation C19.flag   the client's reading of an unambiguous encoding (absent, 0, 1)
+\* @obligation C19.flag   the client's reading of every encoding equals the fail-safe reading of Private.tla
 \* Stats / loop snapshot (hook H1) at a quiet point
 TrObs ==
     /\ Ev.ev = "obs"
-    /\ Note(IF info = "known" /\ ~amb /\ (Ev.private # cfg.priv \/ Ev.snapPrivate # cfg.priv) THEN "C19.flag"
+    /\ Note(IF info = "known" /\ (Ev.private # cfg.priv \/ Ev.snapPrivate # cfg.priv) THEN "C19.flag"
             ELSE IF IsPriv /\ (Ev.qpex > 0 \/ Ev.qdht > 0) THEN "C19.sources.queued"
             ELSE IF IsPriv /\ Ev.dhtAnnouncer THEN "C19.dht.announcer"
             ELSE IF IsPriv /\ Ev.pexPeers > 0 THEN "C19.pex.started"
